@@ -129,6 +129,7 @@ def run(ctx) -> None:
     check_default_class_from_signature(ctx, "C18.R1")
     check_bound_class_from_bound_tables(ctx, "C18.R1")
     check_default_copy_is_deep(ctx, "C18.R1")
+    check_merged_table_holds_bindings_only(ctx, "C18.R1")
     check_inputs_from_resolver(ctx, "C18.R1")
 
     # ---- R5: who may copy a value ------------------------------------------------
@@ -347,6 +348,28 @@ def check_map_broadcast_values_are_provided(ctx, rule: str) -> None:
             rep.add(rule, f"{m.qname}:broadcast-values-are-the-provided-ones", bad is None, f"{m.module.rel}:{(bad[0] if bad else c).lineno}", "the mapping handed to the per-item generator derives from the caller's values only" if bad is None else f"'{src(bad[0])[:70]}' merges the graph's bound values into the mapping that map() broadcasts: with clone=True (or a clone list naming it) a bound object is deep-copied per item, so the node receives a copy instead of the very object that was bound — also for an inner graph's own bindings, which the nested map merges back in")
     if n < 2:
         raise AnalysisError("generate_map_inputs call sites in the map templates not found")
+
+
+def check_merged_table_holds_bindings_only(ctx, rule: str) -> None:
+    """The merged bound table of a graph holds values taken from bound tables only (its own, and the ``inputs.bound`` of
+    nested graphs): a value that enters it is handed to nodes by identity, never copied — a signature default surfaced
+    through it (e.g. via get_default_for, which answers 'bound, else default') would be shared between runs."""
+    db, rep = ctx.db, ctx.rep
+    f = db.func("graph.input_spec._collect_bound_values")
+    defs = db.local_defs(f)
+    bound_vars = {nm for nm, ds in defs.items() if any(isinstance(d, (ast.Assign, ast.AnnAssign)) and getattr(d, "value", None) is not None and (src(d.value).endswith(".bound") or src(d.value).endswith("._bound")) for d in ds)}
+    rets = {r.value.id for r in walk_local(f.node) if isinstance(r, ast.Return) and isinstance(r.value, ast.Name)}
+    stores = [x for x in walk_local(f.node) if isinstance(x, ast.Assign) and isinstance(x.targets[0], ast.Subscript) and isinstance(x.targets[0].value, ast.Name) and x.targets[0].value.id in rets]
+    stores += [x for x in walk_local(f.node) if isinstance(x, ast.Call) and isinstance(x.func, ast.Attribute) and x.func.attr in ("update", "setdefault") and isinstance(x.func.value, ast.Name) and x.func.value.id in rets]
+    if not stores or not rets:
+        raise AnalysisError("_collect_bound_values: merge sites not found")
+    bad = None
+    for x in stores:
+        v = x.value if isinstance(x, ast.Assign) else (x.args[-1] if x.args else None)
+        okv = isinstance(v, ast.Subscript) and isinstance(v.value, ast.Name) and v.value.id in bound_vars or (isinstance(v, ast.Call) and isinstance(v.func, ast.Attribute) and v.func.attr == "get" and isinstance(v.func.value, ast.Name) and v.func.value.id in bound_vars) or (isinstance(v, ast.Name) and v.id in bound_vars) or (v is not None and src(v).endswith(".bound"))
+        if not okv:
+            bad = bad or (x, v)
+    rep.add(rule, f"{f.qname}:merged-table-holds-bindings-only", bad is None, f"{f.module.rel}:{(bad[0] if bad else f.node).lineno}", f"{len(stores)} merge site(s): every value comes out of a bound table" if bad is None else f"'{src(bad[1]) if bad[1] is not None else '?'}' puts something other than a bound value into the merged bound table: get_default_for answers 'bound, else signature default', so an inner signature default is classified BOUND, is not deep-copied and reaches the nested run by reference — a function that mutates its default carries the mutation into every later run")
 
 
 def check_default_copy_is_deep(ctx, rule: str) -> None:
